@@ -24,9 +24,10 @@
      corrupt  (one type word or length prefix overwritten) arguments before the corrupted one are decoded as in
               `trunc`; whatever else is returned lies inside the payload
    Narrower readings (see also checks/c18.py): the text is judged only for `full` runs; the rendering of non-finite
-   floats, of strings containing bytes >= 0x80 that are not valid UTF-8 text in a UTF-8 string (and any byte >= 0x80
-   in an "ASCII" string) is not fixed by the statement: such pieces are free.  HOW MANY arguments a truncated list
-   yields is not fixed either (any prefix).
+   floats is free; HOW a byte >= 0x80 is shown that is not part of valid UTF-8 text in a UTF-8 string (and any byte
+   >= 0x80 in an "ASCII" string) is not fixed by the statement either, but the 7-bit characters of such a string must
+   still appear unchanged and in order (see "7-bit rule" below).  HOW MANY arguments a truncated list yields is not
+   fixed (any prefix).
 
    Known finding KF_C18_EmptyArgNoLen: payload_from_args writes no length prefix for an EMPTY string / raw argument,
    so the decoder misreads everything from that argument on.  Deviation action KF_Codec: only enc = "pfa", only with
@@ -143,9 +144,47 @@ MBwd(e, j, d) ==
                      THEN (LET s == TokStart(T, d) IN IF InAlts(SubSeq(T, s + 1, d), e.args_in[j].num) THEN s ELSE -1)
                      ELSE (LET n == PLen(e, j, ty) IN IF IsAtP(e, j, ty, d - n, n) THEN d - n ELSE -1)
             IN IF r < 1 \/ T[r] # Sp THEN BFail ELSE MBwd(e, j - 1, r - 1)
+\* ---------------------------------------------------------------- 7-bit rule for the part the two scans leave open
+(* The scans above stop at the first / last piece whose text is not fixed byte for byte; the text between them,
+   T[c+1 .. d], is the space-joined rendering of the pieces i..j.  The statement does not say how a byte >= 0x80 of an
+   ASCII-typed string (or of a UTF-8-typed string that is not valid UTF-8) is SHOWN, but it does say that the text is the
+   string itself (one trailing NUL removed, CR / LF / TAB as spaces): its 7-bit characters must come out in the same order,
+   none lost, none invented, whatever the other bytes become.  On bytes: deleting every byte outside 0x20..0x7e from
+   T[c+1 .. d] must give the same sequence as deleting them from the expected pieces (strings: value bytes after the
+   NUL / blank rules; numbers, booleans, raw data: their canonical text) joined by single spaces.  The text is UTF-8,
+   a character above U+007F is a sequence of bytes >= 0x80, so the rendering of a high byte is never judged as long
+   as it is shown by characters above U+007F (windows-1252, latin-1, U+FFFD, ...); control characters below 0x20 and
+   0x7f are deleted on both sides as well (narrower reading).  A 7-bit space inside a string and a separator are the
+   same byte, which is why whole regions (not single pieces) are compared: the projection of a concatenation is the
+   concatenation of the projections.
+   Not judged (stays free): regions containing a non-finite float, regions with more than WeakAltMax floats (each has
+   several accepted texts), regions or values longer than WeakMax bytes.                                             *)
+WeakMax == 262144
+WeakAltMax == 2
+Print7(b) == b >= 32 /\ b <= 126
+Proj7(s) == SelectSeq(s, Print7)
+\* piece type for this rule: "weak" = a string whose text is fixed only up to the rendering of its bytes >= 0x80
+WType(e, i) == LET ty == PType(e, i) IN
+               IF ty = "free" /\ e.args_in[i].kind \in {"strU", "strA"} THEN "weak" ELSE ty
+\* the accepted texts of piece i, bytes >= 0x80 of a weak piece left in place (they are projected away)
+PieceAlts(e, i) == LET ty == WType(e, i)  raw == e.args_out[i].raw IN
+                   IF ty = "alt" THEN {e.args_in[i].num[x] : x \in 1..Len(e.args_in[i].num)}
+                   ELSE IF ty = "weak" THEN {[k \in 1..StrLen(raw) |-> BlankB(raw[k])]}
+                   ELSE {[k \in 1..PLen(e, i, ty) |-> PByte(e, i, ty, k)]}
+RECURSIVE RegionCands(_, _, _)
+RegionCands(e, i, j) == IF i > j THEN {<<>>}
+                        ELSE IF i = j THEN {Proj7(p) : p \in PieceAlts(e, i)}
+                        ELSE {Proj7(p) \o <<Sp>> \o r : p \in PieceAlts(e, i), r \in RegionCands(e, i + 1, j)}
+RegionJudged(e, i, j, c, d) ==
+  /\ d - c <= WeakMax
+  /\ \A k \in i..j : WType(e, k) # "free" /\ Len(e.args_out[k].raw) <= WeakMax
+  /\ Cardinality({k \in i..j : WType(e, k) = "alt" /\ Len(e.args_in[k].num) > 1}) <= WeakAltMax
+RegionOk(e, i, j, c, d) == RegionJudged(e, i, j, c, d) => Proj7(SubSeq(e.text, c + 1, d)) \in RegionCands(e, i, j)
+
 TextMatches(e) == LET f == MFwd(e, 1, 0) IN
                   /\ f.ok
-                  /\ (f.free => LET b == MBwd(e, Len(e.args_out), Len(e.text)) IN b.ok /\ b.j >= f.i /\ f.c <= b.d)
+                  /\ (f.free => LET b == MBwd(e, Len(e.args_out), Len(e.text)) IN
+                                 b.ok /\ b.j >= f.i /\ f.c <= b.d /\ RegionOk(e, f.i, b.j, f.c, b.d))
 
 \* ---------------------------------------------------------------- the contract
 InDomain(e) == /\ e.enc \in {"serde", "pfa"} /\ e.mode \in {"full", "trunc", "corrupt"}
